@@ -110,11 +110,24 @@ pub fn make_plan<M: ZooMsg + ?Sized>(d: &mut Decider, stats: &mut Stats, nspec: 
     let explicit = d.chance(St::Cfg, 1, 3);
     let send_cap = if explicit { Some(max_send.max(M::MIN_SIZE) + [0usize, M::ALIGN, 5][d.weighted(St::Cfg, &[3, 1, 1])]) } else { None };
     let cap = send_cap.unwrap_or(2 * max_send.max(M::MIN_SIZE));
-    let mut scratch = AlignedBytes::new(cap, M::ALIGN);
+    // the library only ever sees `scratch[..cap]`; the canary behind it catches (and contains)
+    // builder operations that write outside the buffer they were given
+    const CANARY: usize = 64;
+    let mut scratch_store = AlignedBytes::new(cap + CANARY, M::ALIGN);
+    scratch_store.fill(0xC7);
+    macro_rules! canary_hit {
+        () => {{
+            let hit = scratch_store[cap..].iter().any(|&b| b != 0xC7);
+            if hit {
+                scratch_store[cap..].fill(0xC7);
+            }
+            hit
+        }};
+    }
     let mut msgs = Vec::with_capacity(n_msgs);
     let mut anomalies: Vec<(Val, usize)> = Vec::new();
     for _ in 0..n_msgs {
-        scratch.fill(0xA5);
+        scratch_store[..cap].fill(0xA5);
         let scale = [2usize, 8, 40, 260][d.weighted(St::Msgs, &[3, 4, 3, 1])];
         let val = M::gen(&mut Gen::new(d, St::Msgs, scale));
         let use_default = d.chance(St::Msgs, 1, 12);
@@ -122,7 +135,7 @@ pub fn make_plan<M: ZooMsg + ?Sized>(d: &mut Decider, stats: &mut Stats, nspec: 
         let mut chosen: Option<(MsgPlan, usize)> = None;
         if use_default {
             let mp = MsgPlan { val: Val::I(0), use_default: true, manual_init: false, tweaks: vec![], len: 0, pad_start: 0 };
-            if let Ok(Ok((size, true, v))) = guarded(|| build_in::<M>(&mut scratch, &mp)) {
+            if let Ok(Ok((size, true, v))) = guarded(|| build_in::<M>(&mut scratch_store[..cap], &mp)) {
                 if size <= max_send {
                     chosen = Some((MsgPlan { val: v, ..mp }, size));
                 }
@@ -134,7 +147,7 @@ pub fn make_plan<M: ZooMsg + ?Sized>(d: &mut Decider, stats: &mut Stats, nspec: 
             loop {
                 let v = if n == top { val.clone() } else { val.clamp(n) };
                 let mp = MsgPlan { val: v, use_default: false, manual_init: false, tweaks: vec![], len: 0, pad_start: 0 };
-                match guarded(|| build_in::<M>(&mut scratch, &mp)) {
+                match guarded(|| build_in::<M>(&mut scratch_store[..cap], &mp)) {
                     Ok(Ok((size, true, _))) if size <= max_send => {
                         if n < top {
                             stats[P::value_clamped_to_fit as usize] += 1;
@@ -163,7 +176,7 @@ pub fn make_plan<M: ZooMsg + ?Sized>(d: &mut Decider, stats: &mut Stats, nspec: 
             None => {
                 // fall back to the default value (always fits by construction of max_send)
                 let mp = MsgPlan { val: Val::I(0), use_default: true, manual_init: false, tweaks: vec![], len: 0, pad_start: 0 };
-                match guarded(|| build_in::<M>(&mut scratch, &mp)) {
+                match guarded(|| build_in::<M>(&mut scratch_store[..cap], &mp)) {
                     Ok(Ok((size, true, v))) => (MsgPlan { val: v, ..mp }, size),
                     _ => continue,
                 }
@@ -173,22 +186,29 @@ pub fn make_plan<M: ZooMsg + ?Sized>(d: &mut Decider, stats: &mut Stats, nspec: 
         if d.chance(St::Msgs, tweak_p, 8) {
             let start = d.rec.msgs.len();
             let r = guarded(|| -> Result<(usize, bool, Val), flatty::Error> {
-                scratch.fill(0x5A);
+                scratch_store[..cap].fill(0x5A);
+                let scratch = &mut scratch_store[..cap];
                 let (size, val) = {
-                    let m: &mut M = if mp.use_default { M::default_in_place(&mut scratch)? } else { M::new_in_place(&mut scratch, emp::<M>(&mp.val))? };
+                    let m: &mut M = if mp.use_default { M::default_in_place(scratch)? } else { M::new_in_place(scratch, emp::<M>(&mp.val))? };
                     m.tweak(&mut Gen::new(d, St::Msgs, 3));
                     (m.size(), m.read())
                 };
-                let valid = M::validate(&scratch).is_ok() && size <= scratch.len();
+                let valid = M::validate(scratch).is_ok() && size <= scratch.len();
                 Ok((size, valid, val))
             });
             let tw: Vec<u32> = d.rec.msgs[start..].to_vec();
+            let r = if canary_hit!() {
+                stats[P::producer_wrote_outside_buffer as usize] += 1;
+                Err(Caught::Stopped("canary"))
+            } else {
+                r
+            };
             match r {
                 Ok(Ok((s, true, _))) if s <= max_send && !tw.is_empty() => {
                     // confirm that replaying the recorded decisions reproduces the same value
                     let mp2 = MsgPlan { tweaks: tw, ..mp.clone() };
-                    scratch.fill(0xA5);
-                    if let Ok(Ok((s2, true, _))) = guarded(|| build_in::<M>(&mut scratch, &mp2)) {
+                    scratch_store[..cap].fill(0xA5);
+                    if let Ok(Ok((s2, true, _))) = guarded(|| build_in::<M>(&mut scratch_store[..cap], &mp2)) {
                         if s2 == s {
                             mp = mp2;
                             size = s;
